@@ -13,7 +13,9 @@ import Cog.Drv.MergeDrv
 import Cog.Drv.EqualsDrv
 import Cog.Drv.ValidateDrv
 import Cog.Drv.ClosedDrv
+import Cog.Drv.DefaultsDrv
 import Cog.Drv.PyDrv
+import Cog.Drv.BuilderSemDrv
 open Cog.Drv
 
 def handle (line : String) : String :=
@@ -49,11 +51,15 @@ def handleIO (line : String) : IO String := do
   match l.splitOn " " with
   | "defschemas" :: rest => defSchemas (" ".intercalate rest)
   | "godec" :: rest => godecLine (" ".intercalate rest)
+  | "goden" :: rest => godenLine (" ".intercalate rest)
   | "goequals" :: rest => goequalsLine (" ".intercalate rest)
   | "govalidate" :: rest => govalidateLine (" ".intercalate rest)
   | "gostrict" :: rest => gostrictLine (" ".intercalate rest)
   | "c08hyp" :: rest => c08hypLine (" ".intercalate rest)
+  | "godefaults" :: rest => godefaultsLine (" ".intercalate rest)
+  | "pydefaults" :: rest => pydefaultsLine (" ".intercalate rest)
   | "pyroundtrip" :: rest => pyroundtripLine (" ".intercalate rest)
+  | "gobuild" :: rest => gobuildLine (" ".intercalate rest)
   | _ => return handle line
 
 partial def loop (h : IO.FS.Stream) (out : IO.FS.Stream) : IO Unit := do
